@@ -1,4 +1,5 @@
 """C03 — running an image follows the machine model from load to stop."""
+import re
 from ..facts import callee_of, short, sp_file_line, expr_str, expr_walk, op_local, place_is_local, const_int
 from .. import kit, formula, bits
 from ..linear import lin, show, same
@@ -37,19 +38,85 @@ def run(ctx):
     ctx.need(len(aggs) == 1, "RunState aggregate in from_raw")
     a = aggs[0]["r"]
     vals = dict(zip(a["fields"], a["ops"]))
-    pc_e = expr_str(fr.expr(vals["pc"], 8, stop={"named"}))
-    orig_e = expr_str(fr.expr(vals["orig"], 8, stop={"named"}))
+    # ---- canonical quantities: O = the image's first word, L = number of words of the whole image (origin word included).
+    # Every index and bound below is reduced to a linear form over O and L, whatever temporaries, slices (`raw[1..]`,
+    # `split_first`) or helper names the code uses: len(tail) = L - 1.
+    def _strip(e):
+        while isinstance(e, tuple) and e and e[0] in ("ref", "deref", "cast"):
+            e = e[1] if e[0] in ("ref", "deref") else e[3]
+        return e
+
+    def is_whole(e):
+        e = _strip(e)
+        return e[0] == "arg" and e[1] == 1
+
+    def split_payload(e, k):
+        """e is field k of the pair inside `split_first(whole) as Some`"""
+        e = _strip(e)
+        if e[0] == "field" and str(e[2]) == str(k):
+            p = _strip(e[1])
+            if p[0] == "field" and str(p[2]) == "0":
+                p = _strip(p[1])
+            if p[0] == "downcast" and p[2] == "Some":
+                c = _strip(p[1])
+                return c[0] == "call" and str(c[1]).endswith("split_first") and is_whole(c[2][0])
+        return False
+
+    def is_tail(e):
+        e = _strip(e)
+        if e[0] == "call" and str(e[1]).endswith("Index<I> for [T]>::index") and len(e[2]) == 2 and is_whole(e[2][0]):
+            return "RangeFrom{1}" in expr_str(e[2][1]).replace(" ", "")
+        return split_payload(e, 1)
+
+    def is_origin(e):
+        e = _strip(e)
+        if e[0] == "idx" and is_whole(e[1]) and _strip(e[2]) == ("const", 0):
+            return True
+        return split_payload(e, 0)
+
+    def olname(e):
+        if is_origin(e):
+            return "O"
+        x = _strip(e)
+        inner = None
+        if x[0] == "un" and x[1] == "PtrMetadata":
+            inner = x[2]
+        elif x[0] == "call" and re.search(r"(<impl \[T\]>|Vec::<T, A>)::len$", str(x[1])) and len(x[2]) == 1:
+            inner = x[2][0]
+        if inner is not None:
+            if is_whole(inner):
+                return "L"
+            if is_tail(inner):
+                return "Ltail"
+        return None
+
+    def OL(op_or_expr, is_expr=False):
+        e = op_or_expr if is_expr else fr.expr(op_or_expr, 16)
+        c, d = lin(e, name=olname)
+        d = dict(d)
+        if "Ltail" in d:
+            k = d.pop("Ltail")
+            d["L"] = (d.get("L", 0) + k) % 65536
+            c = (c - k) % 65536
+            if not d["L"]:
+                d.pop("L")
+        return (c, d)
+
+    def is_OL(l, c0, o, ln):
+        want = {}
+        if o:
+            want["O"] = o % 65536
+        if ln:
+            want["L"] = ln % 65536
+        return l[0] == c0 % 65536 and l[1] == want
+
+    pc_l, orig_l = OL(vals["pc"]), OL(vals["orig"])
     ctx.instance(1)
-    ok = pc_e == "(orig as u16)" and orig_e == "(orig as u16)"
-    ctx.oblig(ok, {"pc": pc_e, "orig": orig_e}, "both the image's first word")
+    ok = is_OL(pc_l, 0, 1, 0) and is_OL(orig_l, 0, 1, 0)
+    ctx.oblig(ok, {"pc": show(pc_l), "orig": show(orig_l)}, "both the image's first word")
     if not ok:
-        ctx.violation("initial-pc", sp_file_line(aggs[0].get("sp")), "the loaded machine starts with PC = %s and origin = %s (expected the image's first word for both)" % (pc_e, orig_e))
-    od = fr.local_by_name("orig")
-    oe = expr_str(fr.local_expr(od, 8)) if od is not None else "?"
-    ok = "raw" in oe and "[0]" in oe.replace(" ", "")
-    ctx.oblig(ok, {"orig": oe}, "raw[0]")
-    if not ok:
-        ctx.violation("origin-source", fr.file_line(), "the origin is taken from `%s`, not from the first word of the image" % oe)
+        ctx.violation("initial-pc", sp_file_line(aggs[0].get("sp")), "the loaded machine starts with PC = %s and origin = %s (expected the image's first word for both)"
+                      % (expr_str(fr.expr(vals["pc"], 8), 60), expr_str(fr.expr(vals["orig"], 8), 60)))
     regs = fr.expr(vals["reg"], 8)
     def _val(x):
         try:
@@ -68,17 +135,29 @@ def run(ctx):
     ctx.oblig(ok, {"condition code": expr_str(fl)}, "none")
     if not ok:
         ctx.violation("initial-cc", sp_file_line(aggs[0].get("sp")), "the initial condition code is %s (expected none/Uninit)" % expr_str(fl))
-    # sentinel
-    sent = [(b, s) for b, i, s in fr.assigns() if s["p"].get("pr") and "idx" in (s["p"]["pr"][-1] if isinstance(s["p"]["pr"][-1], dict) else {}) and const_int(s["r"].get("a", {})) is not None]
+    def formula_const(fn_, r_):
+        if r_["k"] != "use":
+            return None
+        v_ = const_int(r_["a"])
+        if v_ is not None:
+            return v_
+        try:
+            v_ = formula.evaluate(fn_.expr(r_["a"], 6), {"prog": prog})
+            return v_ if isinstance(v_, int) else None
+        except (formula.Unknown, formula.Overflow):
+            return None
+    # sentinel: the one constant store into an indexed place
+    sent = [(b, s) for b, i, s in fr.assigns() if s["p"].get("pr") and "idx" in (s["p"]["pr"][-1] if isinstance(s["p"]["pr"][-1], dict) else {})
+            and formula_const(fr, s["r"]) is not None]
     ctx.need(len(sent) == 1, "sentinel store in from_raw")
     sb, ss = sent[0]
-    idx_l = ss["p"]["pr"][-1]["idx"]
-    l = lin(fr.local_expr(idx_l, 10, stop={"named"}))
-    ok = const_int(ss["r"]["a"]) == 0xF025 and same(l, 0, [("orig", 1), ("len(", 1)])
+    sval = formula_const(fr, ss["r"])
+    l = OL(fr.local_expr(ss["p"]["pr"][-1]["idx"], 16), True)
+    ok = sval == 0xF025 and is_OL(l, -1, 1, 1)
     ctx.instance(1)
-    ctx.oblig(ok, {"sentinel": hex(const_int(ss["r"]["a"])), "at": show(l)}, "0xF025 at orig + n")
+    ctx.oblig(ok, {"sentinel": hex(sval), "at": show(l)}, "0xF025 at O + L - 1 (the word after the image)")
     if not ok:
-        ctx.violation("sentinel", sp_file_line(ss.get("sp")), "the implicit HALT is stored as %s at `%s` (expected 0xF025 at orig + number of image words)" % (hex(const_int(ss["r"]["a"])), show(l)))
+        ctx.violation("sentinel", sp_file_line(ss.get("sp")), "the implicit HALT is stored as %s at `%s` (expected 0xF025 at origin + number of image words)" % (hex(sval), show(l)))
     # ... unconditionally: every path to the Ok return stores it
     rets_ = [b for b in fr.live_blocks() if fr.term(b)["k"] == "return"]
     skipping = fr.reachable(0, avoid={sb}) & set(rets_)
@@ -86,56 +165,84 @@ def run(ctx):
     if skipping:
         ctx.violation("sentinel-conditional", sp_file_line(ss.get("sp")), "the implicit HALT after the image is stored only on some paths (lines %s avoid it): "
                       "an image the condition excludes runs on into zeroed memory instead of halting" % fr.path_lines(fr.path(0, skipping, avoid={sb})))
-    # copy: mem[orig .. orig + n] <- raw[1..]
-    cp = [(b, t) for b, t, c in fr.calls() if c and c.endswith("clone_from_slice")]
+    # copy: mem[O .. O + L - 1] <- the words after the origin word
+    cp = [(b, t) for b, t, c in fr.calls() if c and (c.endswith("clone_from_slice") or c.endswith("copy_from_slice"))]
     ctx.need(len(cp) == 1, "image copy in from_raw")
     cb, ct = cp[0]
-    dst = fr.expr(ct["args"][0], 12, stop={"named"})
+    dst = fr.expr(ct["args"][0], 16)
     rng = [x for x in expr_walk(dst) if x[0] == "agg" and x[1][0] == "adt" and str(x[1][1]).endswith("ops::range::Range")]
     ctx.instance(1)
-    ok = bool(rng) and same(lin(rng[0][2][0]), 0, [("orig", 1)]) and same(lin(rng[0][2][1]), 0, [("orig", 1), ("len(", 1)])
-    ctx.oblig(ok, {"copy destination": expr_str(rng[0], 80) if rng else expr_str(dst, 80)}, "mem[orig .. orig + n]")
+    ok = bool(rng) and is_OL(OL(rng[0][2][0], True), 0, 1, 0) and is_OL(OL(rng[0][2][1], True), -1, 1, 1)
+    ctx.oblig(ok, {"copy destination": expr_str(rng[0], 80) if rng else expr_str(dst, 80)}, "mem[O .. O + L - 1]")
     if not ok:
-        ctx.violation("image-placement", sp_file_line(ct.get("sp")), "the image is copied to `%s` (expected mem[orig .. orig + n])" % expr_str(dst, 100))
-    # the `raw` used for the copy/sentinel is raw[1..]
-    raws = [(b, t) for b, t, c in fr.calls() if c and c.endswith("Index<I> for [T]>::index")]
-    ok = len(raws) == 1 and "RangeFrom{1}" in expr_str(fr.expr(raws[0][1]["args"][1], 6)).replace(" ", "") and fr.dominates(raws[0][0], cb)
-    ctx.oblig(ok, {"image words": "raw[1..]"}, "slice after the origin word")
+        ctx.violation("image-placement", sp_file_line(ct.get("sp")), "the image is copied to `%s` (expected mem[origin .. origin + number of image words])" % expr_str(dst, 100))
+    src = fr.expr(ct["args"][1], 16)
+    ok = is_tail(src)
+    ctx.oblig(ok, {"image words": expr_str(src, 60)}, "everything after the origin word")
     if not ok:
-        ctx.violation("image-slice", fr.file_line(), "the image words are not taken as raw[1..]")
-    # guards dominate the writes and bound the indices
+        ctx.violation("image-slice", sp_file_line(ct.get("sp")), "the words copied into memory are `%s`, not the image without its origin word" % expr_str(src, 80))
+    # guards: an empty image and an image that does not fit below 0x10000 are error exits that dominate both writes
     guards = []
     for b in sorted(fr.live_blocks()):
         t = fr.term(b)
         if t["k"] == "switch":
-            # expand named temporaries (`let end = orig + raw.len()`), but keep `orig` itself as a symbol
-            c = fr.expr(t["a"], 12, stop=({od} if od is not None else {"named"}))
-            tg = {v: x for v, x in t["targets"]}
-            t_true = t["otherwise"] if 0 in tg else tg.get(1)
-            t_false = tg.get(0, t["otherwise"])
-            diverges = not any(fr.term(x)["k"] == "return" for x in fr.reachable(t_true, avoid={t_false}))
-            exits = [const_int(tt["args"][0]) for bb, tt, cc in fr.calls() if cc == "std::process::exit" and bb in fr.reachable(t_true, avoid={t_false})]
-            guards.append((b, c, t_false, diverges, exits))
-    empty = [g for g in guards if g[1][0] == "bin" and g[1][1] == "Eq" and "len(" in expr_str(g[1][2]) and g[1][3] == ("const", 0)]
-    size = [g for g in guards if g[1][0] == "bin" and g[1][1] in ("Gt", "Ge") and g[1][3][0] == "const"]
+            c = fr.expr(t["a"], 16)
+            for side in ("yes", "no"):
+                tg = {v: x for v, x in t["targets"]}
+                t_true = t["otherwise"] if 0 in tg else tg.get(1)
+                t_false = tg.get(0, t["otherwise"])
+                rej, acc = (t_true, t_false) if side == "yes" else (t_false, t_true)
+                if rej is None or acc is None:
+                    continue
+                diverges = not any(fr.term(x)["k"] == "return" for x in fr.reachable(rej, avoid={acc}))
+                exits = [const_int(tt["args"][0]) for bb, tt, cc in fr.calls() if cc == "std::process::exit" and bb in fr.reachable(rej, avoid={acc})]
+                if diverges and exits:
+                    guards.append((b, c, acc, side == "yes", exits))
+    def empty_guard(c, when_true):
+        x = _strip(c)
+        if x[0] == "bin" and x[1] in ("Eq", "Ne") and _strip(x[3]) == ("const", 0) and olname(x[2]) == "L":
+            return when_true == (x[1] == "Eq")
+        if x[0] == "call" and str(x[1]).endswith("::is_empty") and is_whole(x[2][0]):
+            return when_true
+        if x[0] == "discr" and _strip(x[1])[0] == "call" and str(_strip(x[1])[1]).endswith("split_first") and is_whole(_strip(x[1])[2][0]):
+            return not when_true          # discriminant 0 = None = empty
+        return False
+    def size_guard(c, when_true):
+        """does the rejecting side of this comparison say exactly O + L > 0x10000 ?  decided by evaluating it on boundary cells"""
+        x = _strip(c)
+        if not (x[0] == "bin" and x[1] in ("Gt", "Ge", "Lt", "Le")):
+            return False
+        names = {olname(y) for y in expr_walk(x)} - {None}
+        if not ("O" in names and (names & {"L", "Ltail"})):
+            return False
+        for O_ in (0, 1, 0x3000, 0x8000, 0xFFFE, 0xFFFF):
+            for L_ in sorted({1, 2, 3, 0x10000 - O_ - 1, 0x10000 - O_, 0x10000 - O_ + 1, 0x10000}):
+                if L_ < 1:
+                    continue
+                def sub(e, _o=O_, _l=L_):
+                    n_ = olname(e)
+                    return {"O": _o, "L": _l, "Ltail": _l - 1}.get(n_) if n_ else None
+                try:
+                    v_ = formula.evaluate(x, {"subst": sub, "prog": prog}, checked=False)
+                except (formula.Unknown, formula.Overflow):
+                    return False
+                if (bool(v_) == when_true) != (O_ + L_ > 0x10000):
+                    return False
+        return True
+    empty = [g for g in guards if empty_guard(g[1], g[3])]
+    size = [g for g in guards if size_guard(g[1], g[3])]
     ctx.instance(2)
-    ok = len(empty) == 1 and empty[0][3] and empty[0][4] and all(x not in (0, None) for x in empty[0][4]) and fr.dominates(empty[0][2], cb)
+    ok = len(empty) == 1 and all(x not in (0, None) for x in empty[0][4]) and fr.dominates(empty[0][2], cb) and fr.dominates(empty[0][2], sb)
     ctx.oblig(ok, {"empty image": "error exit %s" % (empty[0][4] if empty else None)}, "diverges, dominates the load")
     if not ok:
         ctx.violation("empty-guard", fr.file_line(), "an empty image is not rejected with an error exit before anything is loaded")
-    ok = len(size) == 1
-    if ok:
-        g = size[0]
-        l = lin(g[1][2])
-        thr = g[1][3][1] + (1 if g[1][1] == "Ge" else 0)   # a > K  <=>  a >= K+1
-        # `raw` here is the whole file (n + 1 words): orig + (n+1) > 0x10000 rejects
-        ok = same(l, 0, [("orig", 1), ("len(", 1)]) and ((g[1][1] == "Gt" and g[1][3][1] == 0x10000) or (g[1][1] == "Ge" and g[1][3][1] == 0x10001)) \
-            and g[3] and all(x not in (0, None) for x in g[4]) and fr.dominates(g[2], cb) and fr.dominates(g[2], sb) \
-            and not fr.dominates(raws[0][0], g[0])
-    ctx.oblig(ok, {"size guard": expr_str(size[0][1]) if size else None}, "orig + (n + 1) > 0x10000 -> error exit; dominates copy and sentinel")
+    ok = len(size) == 1 and all(x not in (0, None) for x in size[0][4]) and fr.dominates(size[0][2], cb) and fr.dominates(size[0][2], sb)
+    others = [g for g in guards if g not in empty and g not in size]
+    ctx.oblig(ok, {"size guard": expr_str(size[0][1], 100) if size else None}, "rejects exactly O + L > 0x10000; dominates copy and sentinel")
     if not ok:
-        ctx.violation("size-guard", fr.file_line(), "the loader's size guard is `%s`: it must reject exactly the images for which orig + n + 1 > 0x10000 and dominate both memory writes"
-                      % (expr_str(size[0][1]) if size else "missing"))
+        cand = [expr_str(g[1], 100) for g in guards if g not in empty]
+        ctx.violation("size-guard", fr.file_line(), "the loader's size guard is `%s`: it must reject exactly the images for which origin + image words + 1 > 0x10000 and dominate both memory writes"
+                      % (cand[0] if cand else "missing"))
     ctx.finish_rule()
 
     # ------------------------------------------------------------------ R2
